@@ -228,8 +228,11 @@ func (p *Pollard) deleteRoot(del uint64) error {
 			del, tree, len(p.Roots))
 	}
 
-	// Delete from map.
-	delete(p.NodeMap, p.Roots[tree].data.mini())
+	// Delete from map. Only a leaf is in the map and the root may be an internal
+	// node whose hash is the same as some other leaf.
+	if p.NodeMap[p.Roots[tree].data.mini()] == p.Roots[tree] {
+		delete(p.NodeMap, p.Roots[tree].data.mini())
+	}
 
 	if p.Roots[tree].lNiece != nil {
 		p.Roots[tree].lNiece.aunt = nil
@@ -282,14 +285,16 @@ func (p *Pollard) deleteSingle(del uint64) error {
 		delNode(fromNode)
 
 		// If the node was a leaf, update the map to point to the root.
-		_, found := p.NodeMap[toNode.data.mini()]
-		if found {
+		cur, found := p.NodeMap[toNode.data.mini()]
+		if found && cur == fromNode {
 			p.NodeMap[toNode.data.mini()] = toNode
 		}
 	}
 
 	// Delete the node from the map.
-	delete(p.NodeMap, fromNodeSib.data.mini())
+	if p.NodeMap[fromNodeSib.data.mini()] == fromNodeSib {
+		delete(p.NodeMap, fromNodeSib.data.mini())
+	}
 	delNode(fromNodeSib)
 
 	// If to position is a root, there's no parent hash to be calculated so
@@ -418,7 +423,9 @@ func (p *Pollard) undoSingleAdd() {
 			row = -1
 		}
 
-		delete(p.NodeMap, lowestRoot.data.mini())
+		if p.NodeMap[lowestRoot.data.mini()] == lowestRoot {
+			delete(p.NodeMap, lowestRoot.data.mini())
+		}
 		delNode(lowestRoot)
 	}
 	p.NumLeaves--
@@ -518,8 +525,8 @@ func (p *Pollard) undoSingleDel(node *polNode, pos uint64) error {
 
 		swapNieces(parent.lNiece, parent.rNiece)
 
-		_, found := p.NodeMap[sibling.data.mini()]
-		if found {
+		cur, found := p.NodeMap[sibling.data.mini()]
+		if found && cur == parent {
 			p.NodeMap[sibling.data.mini()] = sibling
 		}
 
